@@ -578,6 +578,65 @@ fn C17_a_transmitted_static_key_replaces_a_key_given_to_the_builder() {
     }
     assert_eq!(bad, 0);
 }
+/// seeded change C12-11: a set_psk that is REJECTED (wrong key length, slot out of range) installs nothing - the message that
+/// needs the PSK still reports MissingPsk (C12: "never replaced by a default"; C07: a failed call is a no-op), and a later
+/// valid set_psk makes the session interoperate with a peer that was given the same PSK through its Builder
+#[test]
+fn C12_C07_a_rejected_set_psk_installs_no_default_psk() {
+    let mut bad = 0;
+    for name in all_names(&["25519_ChaChaPoly_SHA256"]) {
+        let pos = psk_positions(&name);
+        if pos.is_empty() { continue; }
+        let c = cfg(&name);
+        let e = table_entry(&base_pattern(&name));
+        for lazy_is_init in [true, false] {
+            let build_lazy = || -> Result<HandshakeState, Error> {
+                let params: NoiseParams = c.name.parse()?;
+                let (me, peer, eph) = if lazy_is_init { (&c.si, &c.sr, &c.ei) } else { (&c.sr, &c.si, &c.er) };
+                let mut b = Builder::new(params).prologue(&c.prologue)?.local_private_key(&me.0)?.fixed_ephemeral_key_for_testing_only(eph);
+                let peer_pre = if lazy_is_init { e.2 } else { e.1 };
+                if peer_pre.contains(&"s") { b = b.remote_public_key(&peer.1)?; }
+                if lazy_is_init { b.build_initiator() } else { b.build_responder() }
+            };
+            let (mut i, mut r) = match (if lazy_is_init { build_lazy() } else { build(&c, true, None) }, if lazy_is_init { build(&c, false, None) } else { build_lazy() }) { (Ok(a), Ok(b)) => (a, b), _ => continue };
+            // rejected settings on every slot the pattern uses, then on slots out of range
+            {
+                let lazy = if lazy_is_init { &mut i } else { &mut r };
+                for &p in pos.iter() { for len in [0usize, 1, 16, 31, 33, 64] { if lazy.set_psk(p as usize, &vec![0x5a; len]).is_ok() { finding("C12", format!("{}: set_psk({}, <{} bytes>) is accepted", name, p, len)); bad += 1; } } }
+                for p in [10usize, 11, 255, usize::MAX] { if lazy.set_psk(p, &c.psk).is_ok() { finding("C12", format!("{}: set_psk({}, ..) (slot out of range) is accepted", name, p)); bad += 1; } }
+            }
+            // run the handshake: the first message in which the lazy party processes a psk token must fail with MissingPsk
+            let mut buf = vec![0u8; 70000]; let mut p = vec![0u8; 70000];
+            let mut reported = false;
+            for k in 0..e.3.len() {
+                let writer_is_init = k % 2 == 0;
+                let (w, rd) = if writer_is_init { (&mut i, &mut r) } else { (&mut r, &mut i) };
+                let needs = pos.iter().any(|&q| (q == 0 && k == 0) || (q as usize == k + 1));
+                let res_w = w.write_message(b"p", &mut buf);
+                if writer_is_init == lazy_is_init {
+                    if needs {
+                        if res_w != Err(Error::State(snow::error::StateProblem::MissingPsk)) { finding("C12", format!("{}: the {} was built without a PSK and only REJECTED set_psk calls were made on it, yet writing message {} (which needs the PSK) returns {:?} instead of MissingPsk - a default key was used", name, if lazy_is_init { "initiator" } else { "responder" }, k, res_w.as_ref().map(|_| "Ok"))); finding("C07", format!("{}: a rejected set_psk changed the session: message {} no longer reports MissingPsk", name, k)); bad += 1; }
+                        reported = true; break;
+                    }
+                    let n = match res_w { Ok(n) => n, Err(_) => break };
+                    if rd.read_message(&buf[..n], &mut p).is_err() { break; }
+                } else {
+                    let n = match res_w { Ok(n) => n, Err(_) => break };
+                    let res_r = rd.read_message(&buf[..n], &mut p);
+                    if needs {
+                        if res_r != Err(Error::State(snow::error::StateProblem::MissingPsk)) { finding("C12", format!("{}: the {} was built without a PSK and only REJECTED set_psk calls were made on it, yet reading message {} (which needs the PSK) returns {:?} instead of MissingPsk - a default key was used", name, if lazy_is_init { "initiator" } else { "responder" }, k, res_r)); finding("C07", format!("{}: a rejected set_psk changed the session: message {} no longer reports MissingPsk", name, k)); bad += 1; }
+                        reported = true; break;
+                    }
+                    if res_r.is_err() { break; }
+                }
+            }
+            let _ = reported;
+            if bad >= 4 { break; }
+        }
+        if bad >= 4 { break; }
+    }
+    assert_eq!(bad, 0);
+}
 #[test]
 fn C12_builder_prerequisites() {
     let mut bad = 0;
